@@ -181,6 +181,13 @@ func Yield() {}
 // PoolNondet makes sync.Pool.Get return any pooled object or a new one (engine only).
 func PoolNondet(on bool) {}
 
+// PoolInterfere makes f run right after the k-th sync.Pool.Put from now on (engine only): a whole operation
+// of another goroutine scheduled at the point where a pooled object has just been handed back.
+func PoolInterfere(k int, f func()) {}
+
+// PoolPuts is the number of sync.Pool.Put calls seen since PoolInterfere was armed (engine only).
+func PoolPuts() int { return 0 }
+
 // SolverHint selects the solver route for the queries of this path: "int" sends the (unchanged) bit-vector
 // text to cvc5 --solve-bv-as-int=sum first, which decides multiply/divide-by-constant kernels that
 // bit-blasting does not (engine only).
